@@ -55,6 +55,11 @@ LEVEL_NOTE = ("Idempotence ('repeating the same sync changes nothing') is proved
 
 
 def generate(tier, rng):
+    import itertools
+    for target, nested, approve, entry in itertools.product(("job", "project"), (False, True), (False, True), ("project", "job")):
+        if target == "project" and entry == "job":
+            continue
+        yield {"kind": "live", "target": target, "nested": nested, "approve": approve, "entry": entry}
     n = 9000 if tier == "quick" else 60000
     for _ in range(n):
         yield sc.gen_case(rng, "c13")
@@ -66,10 +71,95 @@ def search(rng, deadline):
 
 
 def shrink(case):
+    if case.get("kind") == "live":
+        return
     yield from sc.shrink_case(case)
 
 
+def run_live(case, ctx):
+    """The destination is LIVE: while the sync merges a document, another process completes a write to that
+    document (keys the source does not hold).  'Document keys that exist only in the destination are unchanged' -
+    by the sync; it must not put a stale copy back.  The other process is played by a raw temp-file + replace
+    write, performed at a deterministic point: when the key strategy is consulted.  Oracle only."""
+    import json
+    import os
+
+    import signac
+    from signac import sync as S
+
+    base = ctx.fresh_dir("c13live")
+    fails = []
+    try:
+        src = signac.init_project(os.path.join(base, "src"))
+        dst = signac.init_project(os.path.join(base, "dst"))
+        sp = {"a": 1}
+        sdoc = {"tag": "new", "same": 1, "cfg": {"tag2": "new", "keep": 0}} if case["nested"] else {"tag": "new", "same": 1}
+        ddoc = {"tag": "old", "same": 1, "progress": {"step": 3}, "cfg": {"tag2": "old", "keep": 0}} if case["nested"] \
+            else {"tag": "old", "same": 1, "progress": {"step": 3}}
+        if case["target"] == "job":
+            sj, dj = src.open_job(sp).init(), dst.open_job(sp).init()
+            sj.doc.update(sdoc)
+            dj.doc.update(ddoc)
+            fn = dj.doc.filename
+        else:
+            src.open_job(sp).init()
+            src.doc.update(sdoc)
+            dst.doc.update(ddoc)
+            fn = dst.doc.filename
+        calls = []
+
+        def other_process_writes():
+            with open(fn) as f:
+                cur = json.load(f)
+            cur["progress"] = {"step": 11}
+            cur["checkpoint"] = "c7"
+            tmp = os.path.join(os.path.dirname(fn), "._other_process")
+            with open(tmp, "w") as f:
+                json.dump(cur, f)
+            os.replace(tmp, fn)
+
+        def key_strategy(key):
+            if not calls:
+                other_process_writes()
+            calls.append(key)
+            return case["approve"]
+
+        err = None
+        try:
+            if case["entry"] == "job":
+                dst.open_job(sp).sync(src.open_job(sp), doc_sync=S.DocSync.ByKey(key_strategy))
+            else:
+                dst.sync(src, doc_sync=S.DocSync.ByKey(key_strategy), check_schema=False)
+        except Exception as e:  # noqa: BLE001
+            err = e
+        with open(fn) as f:
+            got = json.load(f)
+        label = "live destination (%s document, %s entry, nested=%s, strategy answers %s)" % (
+            case["target"], case["entry"], case["nested"], case["approve"])
+        if err is not None:
+            fails.append("%s: sync raised %s: %s" % (label, type(err).__name__, str(err)[:120]))
+        if not calls:
+            fails.append("%s: the key strategy was never consulted (scenario did not run)" % label)
+        else:
+            if got.get("progress") != {"step": 11} or got.get("checkpoint") != "c7":
+                fails.append("%s: keys only the destination holds were written by another process during the merge "
+                             "(progress.step=11, checkpoint='c7'); after the sync the document holds progress=%r checkpoint=%r"
+                             % (label, got.get("progress"), got.get("checkpoint")))
+            want = "new" if case["approve"] else "old"
+            if err is None and got.get("tag") != want:
+                fails.append("%s: conflicting key 'tag' is %r, expected %r" % (label, got.get("tag"), want))
+        leftovers = [n for n in os.listdir(os.path.dirname(fn)) if n.endswith("~")]
+        if leftovers:
+            fails.append("%s: backup file left behind: %r" % (label, leftovers))
+    finally:
+        ctx.cleanup(base)
+    return {"model": [], "impl": [], "oracle": fails, "tags": ["live-destination", "live:" + case["target"]],
+            "key": "live:" + repr(sorted(case.items()))}
+
+
 def run_case(case, ctx):
+    if case.get("kind") == "live":
+        return run_live(case, ctx)
     o = sc.observe(case, ctx, second_run=True)
     fails = sc.oracle_c13(o)
     model, impl = [o.line1], [o.impl1]
@@ -80,4 +170,6 @@ def run_case(case, ctx):
 
 
 def known_class(case, result):
+    if case.get("kind") == "live":
+        return None
     return sc.known_class(case, result)
